@@ -149,7 +149,7 @@ def run_batch(ck, cases_path, stats):
     while True:
         # every stuck statement costs the watchdog limit: after 3 of them the remaining triples of
         # this batch run on the memory engine only
-        env = {"C02_TIMEOUT_S": "15"}
+        env = {"C02_TIMEOUT_S": os.environ.get("C02_WATCHDOG_S", "15")}
         if timeouts >= 3:
             env["C02_NO_DISK"] = "1"
             stats["disk_disabled_after_timeouts"] = True
@@ -161,6 +161,21 @@ def run_batch(ck, cases_path, stats):
                 impl[f[0]] = f[1:]
                 last = f[0]
         if rc == 3 and last is not None and index_of.get(last.split("@")[0], -1) >= start:
+            # on a heavily loaded machine a harmless statement can miss the 15 s limit: the triple is run
+            # again alone with 60 s; a statement that really does not come back stays a timeout
+            k = index_of[last.split("@")[0]]
+            one = os.path.join(ck.work, "retry_%d_%s.jsonl" % (stats["evaluations"], last.split("@")[0]))
+            with open(one, "w") as fh:
+                fh.write(json.dumps(cases[k]) + "\n")
+            rc1, out1 = vlib.sh([vlib.harness_bin("c02"), "run", one, "0"], timeout=600, env={"C02_TIMEOUT_S": "60"})
+            if rc1 == 0:
+                for l in out1.split("\n"):
+                    f = l.split("\t")
+                    if len(f) >= 3:
+                        impl[f[0]] = f[1:]
+                stats["slow_statements_ok_on_retry"] = stats.get("slow_statements_ok_on_retry", 0) + 1
+                start = k + 1
+                continue
             if not last.endswith("@disk") and cases[index_of[last.split("@")[0]]].get("disk"):
                 impl[last + "@disk"] = ["skipped ; ", "", ""]
             start = index_of[last.split("@")[0]] + 1
@@ -455,7 +470,7 @@ def run(ck):
                          "sql_regression_inputs_with_fixed_expected_rows": stats["sql_regressions"],
                          "order_by_on_padded_side_key_over_outer_join (keyed t1; sequence on the key compared)": stats["order_key_sequences"],
                          "correlated_scalar_aggregate_subqueries": {"runs": stats["scalar_sub"], "outer_table_with_duplicate_rows": stats["scalar_sub_dup_outer"],
-                                                                    "agg/form": dict(sorted(stats["scalar_sub_shapes"].items()))}, "disk_disabled_after_3_timeouts": stats["disk_disabled_after_timeouts"],
+                                                                    "agg/form": dict(sorted(stats["scalar_sub_shapes"].items()))}, "disk_disabled_after_3_timeouts": stats["disk_disabled_after_timeouts"], "slow_statements_ok_when_rerun_alone_with_60s": stats.get("slow_statements_ok_on_retry", 0),
                          "limit_offset_without_order_by(count+membership only)": stats["limit_unordered"]},
     })
     return ck.finish(level="proof", trusted_base=[
